@@ -45,7 +45,7 @@ def tables(thorough):
             else: coeffs = [SPECIAL[(i * 3 + si) % len(SPECIAL)] if i % 2 == 0 else Fr(i, 8) for i in range(n)]
             coeffs = [c if isinstance(c, str) else Fr(float_round(c)) for c in coeffs]
             ext = [(knots[d][orders[d]], knots[d][naxes[d]]) for d in range(nd)] if variant == "plain" else [(Fr(-7 - d), Fr(d * d, 3) + 100) for d in range(nd)]
-            aux = [[], [("GEOMETRY", "2")], [("A", ""), ("LONGER KEY NAME", "some text"), ("LEVEL", "3.5e7"), ("NAME8CHR", "exactly8"), ("PADDED", "trailing  "), ("Z9", "x" * 60), ("QUOTED", "it's"), ("LEADING", "  two leading blanks"), ("FULL", "y" * 68)]][(si + (variant == "special")) % 3]
+            aux = [[], [("GEOMETRY", "2")], [("A", ""), ("LONGER KEY NAME", "some text"), ("LEVEL", "3.5e7"), ("NAME8CHR", "exactly8"), ("PADDED", "trailing  "), ("Z9", "x" * 60), ("QUOTED", "it's"), ("QUOTE2", "IceCube's DOM 'A' v2"), ("QUOTE3", "'"), ("QUOTE4", "ends with a quote'"), ("LEADING", "  two leading blanks"), ("FULL", "y" * 68)]][(si + (variant == "special")) % 3]
             if thorough and variant == "special": aux = aux + [("K%02d" % k, "v%d" % k) for k in range(40)]
             periods = [None, [0.0] * nd, [0.0 if d else 6.25 for d in range(nd)]][(si + (variant == "special")) % 3]
             out.append(("table%d/%s orders=%s nknots=%s naux=%d" % (si, variant, list(orders), list(nks), len(aux)), dict(orders=list(orders), knots=knots, coeffs=coeffs, extents=ext, periods=periods, aux=aux)))
@@ -187,6 +187,21 @@ def run_case(args):
             it2.call("write_fits_core", [1])
             if not it2.globals["vp_thrown"].cells[0]: written = (written, W2.f)
         except G.ExecError: pass
+        # legacy files from the independent writer: no EXTENTS / PERIOD (default extents = the fully supported range, as fit() assigns them), single ORDER key
+        variants = [("without EXTENTS and PERIOD", dict(extents=None, periods=None, single_order=False))]
+        if len(set(desc["orders"])) == 1: variants.append(("with a single ORDER key", dict(extents=desc["extents"], periods=desc["periods"], single_order=True)))
+        for vname, kw in variants:
+            itl, all_ = fresh(); fl = M.spline_file(orders=desc["orders"], knots=desc["knots"], coeffs=desc["coeffs"], aux=[(k, v) for k, v in desc["aux"]], **kw); H.install_cfitsio(itl, M.Session(fl), CONSTS)
+            try: ret = itl.call("read_fits_core", [1]); err = None
+            except G.ExecError as ex: ret = None; err = "%s: %s" % (type(ex).__name__, ex)
+            if err or itl.globals["vp_thrown"].cells[0] or not ret: ob("legacy file %s is read" % vname, False, err or "the reader reported failure"); continue
+            wbad, tl = table_of(itl); bad = list(wbad)
+            if tl is not None:
+                want_ext = [list(e) for e in desc["extents"]] if kw["extents"] is not None else [[desc["knots"][d][desc["orders"][d]], desc["knots"][d][naxes[d]]] for d in range(nd)]
+                if tl["order"] != desc["orders"] or tl.get("knots") != desc["knots"] or tl.get("coefficients") != desc["coeffs"]: bad.append("orders / knots / coefficients differ from the encoded table")
+                if tl.get("extents") != want_ext: bad.append("extents %s, expected %s" % (tl.get("extents"), want_ext))
+                if kw["periods"] is None and tl.get("periods") != [Fr(0)] * nd: bad.append("periods %s, expected zeros" % (tl.get("periods"),))
+            ob("legacy file %s decodes to the table it encodes" % vname, not bad, "; ".join(bad))
         # the independent writer's file is read as the table it encodes
         it3, al3 = fresh(); f0 = M.spline_file(**{**desc, "aux": [(k, v) for k, v in desc["aux"]]}); H.install_cfitsio(it3, M.Session(f0), CONSTS)
         ret = it3.call("read_fits_core", [1])
